@@ -182,8 +182,6 @@ func Conv(f Format, val interface{}) (Value, error) {
 
 func toInt8(val interface{}) (int8, error) {
 	switch x := val.(type) {
-	case uint8:
-		return int8(x), nil
 	case int8:
 		return x, nil
 	default:
@@ -236,8 +234,6 @@ func toInt8List(val interface{}) ([]int8, error) {
 
 func toUInt8(val interface{}) (uint8, error) {
 	switch x := val.(type) {
-	case int8:
-		return uint8(x), nil
 	case uint8:
 		return x, nil
 	default:
@@ -294,8 +290,6 @@ func toInt16(val interface{}) (int16, error) {
 		return int16(x), nil
 	case uint8:
 		return int16(x), nil
-	case uint16:
-		return int16(x), nil
 	case int16:
 		return x, nil
 	default:
@@ -348,11 +342,7 @@ func toInt16List(val interface{}) ([]int16, error) {
 
 func toUInt16(val interface{}) (uint16, error) {
 	switch x := val.(type) {
-	case int8:
-		return uint16(x), nil
 	case uint8:
-		return uint16(x), nil
-	case int16:
 		return uint16(x), nil
 	case uint16:
 		return x, nil
@@ -416,24 +406,12 @@ func toInt32(val interface{}) (n int32, err error) {
 		return int32(x), nil
 	case int32:
 		return int32(x), nil
-	case uint32:
-		return int32(x), nil
-	case uint:
-		return int32(x), nil
-	case int:
-		return int32(x), nil
-	case int64:
-		return int32(x), nil
 	case string:
 		i, err := strconv.ParseInt(x, 10, 32)
 		return int32(i), err
-	case float64:
-		return int32(x), nil
-	case float32:
-		return int32(x), nil
 	default:
 		i, err := toInt64(val)
-		if err == nil && i >= math.MinInt32 && i <= math.MaxUint32 {
+		if err == nil && i >= math.MinInt32 && i <= math.MaxInt32 {
 			return int32(i), nil
 		}
 	}
@@ -490,19 +468,9 @@ func toInt32List(val interface{}) ([]int32, error) {
 
 func toUInt32(val interface{}) (uint32, error) {
 	switch x := val.(type) {
-	case int8:
-		return uint32(x), nil
 	case uint8:
 		return uint32(x), nil
-	case int16:
-		return uint32(x), nil
 	case uint16:
-		return uint32(x), nil
-	case int32:
-		return uint32(x), nil
-	case uint:
-		return uint32(x), nil
-	case int:
 		return uint32(x), nil
 	case uint32:
 		return x, nil
@@ -563,6 +531,22 @@ func toUInt32List(val interface{}) ([]uint32, error) {
 	return nil, fmt.Errorf("cannot coerse '%T' to []int", val)
 }
 
+// floats convert only when they denote an integer of the target type, they are
+// never truncated or wrapped
+func floatToInt64(f float64) (int64, error) {
+	if f == math.Trunc(f) && f >= -(1<<63) && f < (1<<63) {
+		return int64(f), nil
+	}
+	return 0, fmt.Errorf("cannot coerse %v to int64 without loss", f)
+}
+
+func floatToUInt64(f float64) (uint64, error) {
+	if f == math.Trunc(f) && f >= 0 && f < (1<<64) {
+		return uint64(f), nil
+	}
+	return 0, fmt.Errorf("cannot coerse %v to uint64 without loss", f)
+}
+
 func toInt64(val interface{}) (n int64, err error) {
 	switch x := val.(type) {
 	case int8:
@@ -580,22 +564,30 @@ func toInt64(val interface{}) (n int64, err error) {
 	case int:
 		return int64(x), nil
 	case uint:
-		return int64(x), nil
+		if uint64(x) <= math.MaxInt64 {
+			return int64(x), nil
+		}
 	case uint64:
-		return int64(x), nil
+		if x <= math.MaxInt64 {
+			return int64(x), nil
+		}
 	case int64:
 		return x, nil
 	case string:
 		return strconv.ParseInt(x, 10, 64)
 	case float64:
-		return int64(x), nil
+		return floatToInt64(x)
 	case float32:
-		return int64(x), nil
+		return floatToInt64(float64(x))
 	case time.Time:
 		return x.Unix(), nil
 	default:
 		if rv := reflect.ValueOf(val); rv.CanInt() {
 			return rv.Int(), nil
+		} else if rv.CanUint() && rv.Uint() <= math.MaxInt64 {
+			return int64(rv.Uint()), nil
+		} else if rv.CanFloat() {
+			return floatToInt64(rv.Float())
 		}
 	}
 	return 0, fmt.Errorf("cannot coerse '%T' to int64", val)
@@ -657,23 +649,13 @@ func toInt64List(val interface{}) ([]int64, error) {
 
 func toUInt64(val interface{}) (uint64, error) {
 	switch x := val.(type) {
-	case int8:
-		return uint64(x), nil
 	case uint8:
-		return uint64(x), nil
-	case int16:
 		return uint64(x), nil
 	case uint16:
 		return uint64(x), nil
-	case int:
-		return uint64(x), nil
 	case uint:
 		return uint64(x), nil
-	case int32:
-		return uint64(x), nil
 	case uint32:
-		return uint64(x), nil
-	case int64:
 		return uint64(x), nil
 	case uint64:
 		return x, nil
@@ -681,14 +663,20 @@ func toUInt64(val interface{}) (uint64, error) {
 		i, err := strconv.ParseUint(x, 10, 64)
 		return uint64(i), err
 	case float64:
-		return uint64(x), nil
+		return floatToUInt64(x)
 	case float32:
-		return uint64(x), nil
+		return floatToUInt64(float64(x))
 	case time.Time:
-		return uint64(x.Unix()), nil
+		if x.Unix() >= 0 {
+			return uint64(x.Unix()), nil
+		}
 	default:
 		if rv := reflect.ValueOf(val); rv.CanUint() {
 			return rv.Uint(), nil
+		} else if rv.CanInt() && rv.Int() >= 0 {
+			return uint64(rv.Int()), nil
+		} else if rv.CanFloat() {
+			return floatToUInt64(rv.Float())
 		}
 	}
 	return 0, fmt.Errorf("cannot coerse '%T' to uint64", val)
@@ -698,8 +686,11 @@ func toUInt64List(val interface{}) ([]uint64, error) {
 	switch x := val.(type) {
 	case []int:
 		l := make([]uint64, len(x))
+		var err error
 		for i := 0; i < len(x); i++ {
-			l[i] = uint64(x[i])
+			if l[i], err = toUInt64(x[i]); err != nil {
+				return nil, err
+			}
 		}
 		return l, nil
 	case []uint64:
@@ -750,6 +741,23 @@ func toUInt64List(val interface{}) ([]uint64, error) {
 	return nil, fmt.Errorf("cannot coerse '%T' to int64 array", val)
 }
 
+// 64-bit integers beyond 2^53 convert only when a float64 holds them exactly
+func int64ToFloat(i int64) (float64, error) {
+	f := float64(i)
+	if f < (1<<63) && int64(f) == i {
+		return f, nil
+	}
+	return 0, fmt.Errorf("cannot coerse %d to float64 without loss", i)
+}
+
+func uint64ToFloat(i uint64) (float64, error) {
+	f := float64(i)
+	if f < (1<<64) && uint64(f) == i {
+		return f, nil
+	}
+	return 0, fmt.Errorf("cannot coerse %d to float64 without loss", i)
+}
+
 func toDecimal64(val interface{}) (float64, error) {
 	switch x := val.(type) {
 	case int8:
@@ -761,17 +769,17 @@ func toDecimal64(val interface{}) (float64, error) {
 	case uint16:
 		return float64(x), nil
 	case int:
-		return float64(x), nil
+		return int64ToFloat(int64(x))
 	case uint:
-		return float64(x), nil
+		return uint64ToFloat(uint64(x))
 	case int32:
 		return float64(x), nil
 	case uint32:
 		return float64(x), nil
 	case uint64:
-		return float64(x), nil
+		return uint64ToFloat(x)
 	case int64:
-		return float64(x), nil
+		return int64ToFloat(x)
 	case float32:
 		return float64(x), nil
 	case float64:
